@@ -53,6 +53,19 @@ def enum_splines():
                             yield case(ptype("float", F32, {"default": cal, "context": []}), crit.tv_flt(4 * qv - 1, 4))
 
 
+def enum_flat_splines():
+    """splines with equal calibrated values at consecutive points (plateaus, a flat tail, a flat head): every point still bounds the
+    closed range and every segment still exists"""
+    shapes = ([1, 2, 2, 2], [2, 2, 2, 1], [1, 1, 5, 5], [3, 3, 3, 3], [0, 4, 4, 0])
+    for ys in shapes:
+        for order in (0, 1):
+            for extrap in (True, False):
+                pts = [{"x": rat(XS[j + 1]), "y": rat(y)} for j, y in enumerate(ys)]      # x = 1, 2, 4, 8
+                cal = {"k": "spline", "order": order, "extrap": extrap, "pts": pts}
+                for qv in (0, 1, 2, 3, 4, 5, 6, 7, 8, 9):
+                    yield case(ptype("int", INT8, {"default": cal, "context": []}), crit.tv_int(qv))
+
+
 def enum_polys():
     coeffs = [rat(-3, 2), rat(1, 4), rat(2), rat(1, 2)]
     termsets = []
@@ -193,7 +206,7 @@ def run(ctx):
                        "coefficients, knots and raw values are dyadic with small magnitude so both IEEE double arithmetic and the "
                        "32-bit rational arithmetic of the specification are exact; general decimal coefficients are outside the oracle",
                        "a failing calibrator on an enumerated / boolean encoding is unspecified (any outcome accepted)"]
-    cases = list(enum_splines()) + list(enum_polys()) + list(enum_contexts()) + list(enum_enums_bools_times()) + list(enum_repeated_terms())
+    cases = list(enum_splines()) + list(enum_polys()) + list(enum_contexts()) + list(enum_enums_bools_times()) + list(enum_repeated_terms()) + list(enum_flat_splines())
     ctx.extra["A_cases"] = len(cases)
     rng = ctx.rng
     rcases = [rand_case(rng) for _ in range(6000 if q else 60000)]
